@@ -73,8 +73,9 @@ let () =
   let entries = ref [] and itraces = ref [] and cfg = ref { on_demand = false; max_depth = None; skip_bound_labels = false; fix_tuple = false; fix_ctrace = false } in
   let satm = ref PositiveMap.Leaf in
   let events = ref [] in
+  let vinfo = ref [] in
   let reset () = nodes := PositiveMap.Leaf; graphs := PositiveMap.Leaf; globals := PositiveMap.Leaf; entries := [];
-    itraces := []; satm := PositiveMap.Leaf; events := [] in
+    itraces := []; satm := PositiveMap.Leaf; events := []; vinfo := [] in
   let oracle_of (ev : int array) : n -> (positive * bool) list -> n list = fun k flags ->
     let k = (match k with N0 -> 0 | Npos p -> int_of_pos p) in
     let fl = Array.of_list flags in
@@ -142,20 +143,27 @@ let () =
          The pinned model is tried first; when it does not stay in sync, the model with the repairs switched on is tried
          (fix_tuple / fix_ctrace), so that a repaired implementation is still tied to a model the theorems cover. *)
       let segs = ref [] and cur = ref None in
+      let vi = ref (List.rev !vinfo) in
+      let close () = (match !cur with
+          | Some (a, l, pl) -> segs := (a, Array.of_list (List.rev l), Array.of_list (List.rev pl)) :: !segs
+          | None -> ()) in
       List.iter (fun (c, id) ->
-          if c = 'B' then begin
-            (match !cur with Some (a, l) -> segs := (a, Array.of_list (List.rev l)) :: !segs | None -> ());
-            cur := Some (id, [])
-          end else (match !cur with Some (a, l) -> cur := Some (a, id :: l) | None -> ())) evs;
-      (match !cur with Some (a, l) -> segs := (a, Array.of_list (List.rev l)) :: !segs | None -> ());
+          if c = 'B' then begin close (); cur := Some (id, [], []) end
+          else if c = 'A' then (match !cur with Some (a, l, pl) -> cur := Some (a, id :: l, pl) | None -> ())
+          else begin
+            let (t, ct) = (match !vi with x :: r -> vi := r; x | [] -> ([], [])) in
+            (match !cur with Some (a, l, pl) -> cur := Some (a, l, (id, t, ct) :: pl) | None -> ())
+          end) evs;
+      close ();
       let segs = List.rev !segs in
+      let have_pops = List.exists (fun (_, _, pl) -> Array.length pl > 0) segs in
       let replay (cf : config) =
         let out = Buffer.create 65536 in
         let allsync = ref true in
         let pei = ref PositiveMap.Leaf in
         let acc : (int, (string list * int * string list * string list * int list)) Hashtbl.t = Hashtbl.create 16 in
         let order = ref [] in
-        List.iter (fun (a, ev) ->
+        List.iter (fun (a, ev, pops) ->
             let (s, o) = back (oracle_of ev) g cf fuel_n !pei (pos_of_int a) in
             pei := s.pei;
             let adds = Array.of_list (List.rev_map (fun (((n, _), _), _) -> int_of_pos n) s.seen) in
@@ -166,7 +174,26 @@ let () =
                 while !i < Array.length adds && !i < Array.length ev && adds.(!i) = ev.(!i) do incr i done;
                 Printf.sprintf "DIVERGE@%d/%d/%d" !i (Array.length adds) (Array.length ev)
               end in
-            Buffer.add_string out (Printf.sprintf "Q %d %s %s\n" a (outcome_str o) sync);
+            (* the nodes that reached the switch, with their call and closure traces (root first), in pop order *)
+            let ctx =
+              if not have_pops then "noctx" else begin
+                let reached v = (match get_node g v.v_node with
+                    | None -> false
+                    | Some x -> (match get_graph g x.n_graph with
+                        | None -> false
+                        | Some sg -> not ((not sg.g_constructed && not cf.on_demand) || is_base_case g cf x))) in
+                let mp = Array.of_list (List.filter reached (List.rev s.visited)) in
+                let same i = let v = mp.(i) and (n, t, c) = pops.(i) in
+                  int_of_pos v.v_node = n && List.rev_map int_of_pos v.v_trace = t && List.rev_map int_of_pos v.v_ctrace = c in
+                let n = min (Array.length mp) (Array.length pops) in
+                let i = ref 0 in
+                while !i < n && same !i do incr i done;
+                if !i = Array.length mp && !i = Array.length pops then "ctx" else begin
+                  allsync := false;
+                  Printf.sprintf "CTXDIFF@%d/%d/%d" !i (Array.length mp) (Array.length pops)
+                end
+              end in
+            Buffer.add_string out (Printf.sprintf "Q %d %s %s %s\n" a (outcome_str o) sync ctx);
             let gs = run_gaps g cf s in
             let l = List.sort_uniq compare (List.map (fun (v, c) -> (int_of_pos v.v_node, int_of_pos c.c_node)) gs) in
             Buffer.add_string out (Printf.sprintf "H %d closed=%d gaps=%d\n" a (if closed_runb g cf s then 1 else 0) (List.length l));
@@ -250,6 +277,7 @@ let () =
          | "T" :: a :: t :: _ -> itraces := (int_of_string a, ids t) :: !itraces
          | "B" :: a :: _ -> events := ('B', int_of_string a) :: !events
          | "A" :: a :: _ -> events := ('A', int_of_string a) :: !events
+         | "V" :: a :: t :: c :: _ -> events := ('V', int_of_string a) :: !events; vinfo := (ids t, ids c) :: !vinfo
          | "X" :: _ -> print_endline l
          | "END" :: _ -> finish ()
          | _ -> ()
